@@ -309,6 +309,12 @@ impl<'a> Gen<'a> {
     }
   }
   fn temporal_bool(&mut self) -> String {
+    // times of day WITHOUT any zone, and times of day that all carry an explicit offset: neither names a zone, so
+    // neither is covered by the property's exception - their comparisons, differences and range tests have to be the
+    // same on every date (the hours sit around the transitions of the zones the children run in)
+    if self.rng.chance(1, 3) {
+      return self.zoneless_times();
+    }
     match self.rng.index(6) {
       0 => "(date(\"2021-03-28\") < date(\"2021-10-31\"))".into(),
       1 => "(date and time(\"2021-03-28T10:00:00@Europe/Warsaw\") - date and time(\"2021-01-01T10:00:00Z\") = duration(\"P85DT22H\"))".into(),
@@ -324,6 +330,21 @@ impl<'a> Gen<'a> {
       _ => {
         self.clock_bound = true;
         "(time(\"12:00:00\") = time(\"12:00:00Z\"))".into()
+      }
+    }
+  }
+  fn zoneless_times(&mut self) -> String {
+    {
+      let t = |rng: &mut Rng| format!("{:02}:{}:00", rng.below(4), if rng.chance(1, 2) { "00" } else { "30" });
+      let (a, b, c) = (t(self.rng), t(self.rng), t(self.rng));
+      match self.rng.index(7) {
+        0 => format!("(time(\"{}\") = time(\"{}\"))", a, b),
+        1 => format!("(time(\"{}\") < time(\"{}\"))", a, b),
+        2 => format!("(time(\"{}\") in [time(\"{}\")..time(\"{}\")])", a, b, c),
+        3 => format!("(string(time(\"{}\") - time(\"{}\")) = \"PT1H\")", a, b),
+        4 => format!("(time(\"{}+02:00\") = time(\"{}Z\"))", a, b),
+        5 => format!("(time(\"{}-05:00\") <= time(\"{}+01:00\"))", a, b),
+        _ => format!("(time(\"{}\") between time(\"{}\") and time(\"{}\"))", a, b, c),
       }
     }
   }
@@ -1261,6 +1282,15 @@ impl Sim for C13 {
       exprs.push(json!({"text": x, "clock_bound": false, "home": home}));
       exprs.push(json!({"text": y, "clock_bound": false, "home": home}));
       n_exprs += 2;
+    }
+    // times of day without a zone (or all with explicit offsets) compared, subtracted and tested against ranges: one
+    // history in three has such an expression; it is clock-free, so every evaluation - whatever the simulated date and
+    // the time zone of the process - has to return what the fresh evaluator returned at the first date of the history
+    if rng.chance(1, 3) {
+      let mut g = Gen { rng: &mut rng, clock_bound: false };
+      let text = g.zoneless_times();
+      exprs.push(json!({"text": text, "clock_bound": false, "home": rng.index(n_scopes)}));
+      n_exprs += 1;
     }
     let n_ctxs = rng.index(3);
     let mut ctxs = vec![];
